@@ -61,4 +61,9 @@ class State:
 
     def bump(self, key):
         self.ver[key] = z3.Int(self.w.fresh_name(f"ver:{key}"))
+        from . import api
+        if isinstance(key, str) and key.split(".")[0] in api.EXTERNALS:
+            # a ghost field of the MODEL of an external object (e.g. the OpenQL kernel's log): no observer of a repository
+            # class can read it, so what they report (observers with reads="*") is unchanged
+            return
         self.epoch = z3.Int(self.w.fresh_name("epoch"))
